@@ -4,6 +4,7 @@ import XmppModel.Model.CorrAttrs
 import XmppModel.Model.CorrWrap
 import XmppModel.Model.CorrExpect
 import XmppModel.Model.CorrIbb
+import XmppModel.Model.CorrKey
 import XmppModel.Driver.C15
 import XmppModel.Driver.C18
 /-! Driver module for C06: replays an observed trace of a forced schedule on the LTS of
@@ -481,8 +482,47 @@ def ibbGen (s : CorrIbb.St) : Nat → List String → List String → List Strin
     ibbAlphabet.foldl (fun acc o =>
       if CorrIbb.effective s o then ibbGen (CorrIbb.step {} s o).1 d (showIbbOp o :: pre) acc else acc) acc
 
+/-! `C06 key <kind><api><role> <attrs> <to> <from> <typ>`: one round trip of a blocking request whose
+start element enters SendIQ / SendMessage / SendPresence with the attribute list `attrs` (items
+`<u|q|n><i|t|o><digit>`: unqualified / foreign namespace / xmlns declaration, local name id / type /
+other, value 0 = empty); the peer answers with the id it read on the wire, `from` spelled as
+given.  Answer: the id-named attributes on the wire (`R` = a generated id), the outcome, whether
+the handler saw the reply. -/
+def parseKeyAttr (t : String) : Option CorrAttrs.Attr :=
+  match t.toList with
+  | [sp, l, v] => do
+    let sp ← if sp = 'u' then some CorrAttrs.Space.none else if sp = 'q' then some CorrAttrs.Space.foreign
+             else if sp = 'n' then some CorrAttrs.Space.xmlns else none
+    let l ← if l = 'i' then some CorrAttrs.Loc.id else if l = 't' then some CorrAttrs.Loc.type
+            else if l = 'o' then some CorrAttrs.Loc.other else none
+    let v ← (String.ofList [v]).toNat?
+    pure ⟨sp, l, v⟩
+  | _ => none
+
+def parseKeyTo (t : String) : Option CorrKey.To :=
+  if t = "-" then some .absent else if t = "d" then some .domain else if t = "f" then some .full
+  else if t = "i" then some .idn else none
+
+def parseKeyFrom (t : String) : Option CorrKey.From :=
+  if t = "-" then some .absent else if t = "s" then some .same else if t = "u" then some .equiv
+  else if t = "x" then some .ace else if t = "d" then some .other else if t = "b" then some .ownBare
+  else if t = "g" then some .garbage else none
+
+def showKeyAttr (a : CorrAttrs.Attr) : String :=
+  let sp := match a.space with | .none => "u" | .foreign => "q" | .xmlns => "n"
+  sp ++ (if a.val ≥ 7 then "R" else toString a.val)
+
 def handle (args : List String) : Option String :=
   match args with
+  | ["key", _cfg, attrs, to, frm, _typ] => do
+    let as ← mapM? parseKeyAttr (splitList attrs)
+    let to ← parseKeyTo to
+    let frm ← parseKeyFrom frm
+    let p := CorrKey.send {} 7 8 as
+    let ids := (p.2.filter (fun a => a.loc = .id)).map showKeyAttr
+    let out := CorrKey.roundTrip {} 7 8 as to frm
+    let (o, h) := match out with | .reply => ("reply", "0") | .lost => ("lost", "1")
+    pure s!"ids={joinList ids} out={o} h={h} probe=live"
   | ["ibbw", cfg, ops] => do
     let s0 ← ibbInit cfg
     let os ← mapM? parseIbbOp (splitList ops)
